@@ -1154,7 +1154,6 @@ class VCtx(AsyncContext, _CtxMixin):
             raise self._run.new_err(90000 + self._c)
 
 
-_tls = threading.local()
 _vclock_lock = threading.Lock()
 
 
